@@ -12,7 +12,8 @@ _GEN_OUT = os.path.join(core.LEAN, "IcingaProofs", "Gen", "SandboxGuards.lean")
 # theorems that do not depend on whether F-C19a (SetConst unguarded) is still open
 _COMMON = ["sandbox_noninterference", "sandbox_only_safe_calls", "unsafe_native_call_rejected",
            "sandbox_hidden_fields", "sandbox_hidden_fields_indexer", "sandbox_hidden_fields_reference",
-           "sandbox_hidden_fields_deref", "reference_checks_present", "model_obs_meets_spec",
+           "sandbox_hidden_fields_deref", "sandbox_hidden_fields_import", "reference_checks_present",
+           "import_reads_respect_sandbox", "model_obs_meets_spec",
            "model_native_obs_meets_spec", "translator_covers_model_kinds", "call_and_field_checks_present",
            "safe_callback_invokers_checked", "reference_paths_cannot_write", "documented_guards_present"]
 _KNOWN = ["all_mutating_nodes_guarded_partial", "setconst_counterexample", "sandbox_noninterference_repaired"]
